@@ -146,6 +146,13 @@ Theorem source_constructor_is_model :
 Proof. exact src_ctor_ok. Qed.
 Print Assumptions source_constructor_is_model.
 
+(* smooth returns the computed window without casting it to the input's storage type, and
+   _normsq copies the points before rescaling them (literal statements of the source) *)
+Theorem source_keeps_float_output_and_copies_points :
+  src_window_not_cast = true /\ src_normsq_copies_points = true.
+Proof. exact src_purity_ok. Qed.
+Print Assumptions source_keeps_float_output_and_copies_points.
+
 Theorem zero_scale_gives_location :
   forall n k x kap loc p,
   (smooth1 n k x kap 0 loc p == loc)%Q /\
